@@ -166,7 +166,7 @@ impl Curve {
         for i in (0..256).rev() { acc = self.dbl(&acc); if k.bit(i) { acc = self.addj(&acc, &base); } }
         self.to_aff(&acc)
     }
-    pub fn mul_g(&self, k: &U256) -> Point { self.mul(k, &self.g()) }
+    pub fn mul_g(&self, k: &U256) -> Point { let o = self.mul(k, &self.g()); crate::trace::rec("mul_g", 300, || (format!("\"{}\"", k.to_hex64()), match &o { Some((x, y)) => format!("[\"{}\",\"{}\"]", x.to_hex64(), y.to_hex64()), None => "null".into() })); o }
     /// y with the requested parity for x, if x is on the curve
     pub fn lift_x(&self, x: &U256, odd: bool) -> Point {
         let f = &self.fp; if *x >= f.m { return None; }
@@ -183,6 +183,11 @@ impl Curve {
 
     /// ECDSA verification of (r, s) over the 32-byte digest `z` (reduced mod n) under public key q
     pub fn verify(&self, digest: &[u8; 32], r: &U256, s: &U256, q: &Point) -> bool {
+        let o = self.verify_raw(digest, r, s, q);
+        crate::trace::rec("verify", 300, || (format!("[{},\"{}\",\"{}\",{}]", crate::trace::h(digest), r.to_hex64(), s.to_hex64(), match q { Some((x, y)) => format!("[\"{}\",\"{}\"]", x.to_hex64(), y.to_hex64()), None => "null".into() }), o.to_string()));
+        o
+    }
+    fn verify_raw(&self, digest: &[u8; 32], r: &U256, s: &U256, q: &Point) -> bool {
         let nn = &self.fnn;
         if r.is_zero() || s.is_zero() || *r >= nn.m || *s >= nn.m || q.is_none() || !self.on_curve(q) { return false; }
         let z = nn.reduce(&U256::from_be(digest));
@@ -192,6 +197,11 @@ impl Curve {
     }
     /// public-key recovery (SEC1 4.1.6) for recovery id bit `odd`, assuming R.x = r (not r + n)
     pub fn recover(&self, digest: &[u8; 32], r: &U256, s: &U256, odd: bool) -> Point {
+        let o = self.recover_raw(digest, r, s, odd);
+        crate::trace::rec("recover", 400, || (format!("[{},\"{}\",\"{}\",{}]", crate::trace::h(digest), r.to_hex64(), s.to_hex64(), odd), match &o { Some((x, y)) => format!("[\"{}\",\"{}\"]", x.to_hex64(), y.to_hex64()), None => "null".into() }));
+        o
+    }
+    fn recover_raw(&self, digest: &[u8; 32], r: &U256, s: &U256, odd: bool) -> Point {
         let nn = &self.fnn;
         if r.is_zero() || s.is_zero() || *r >= nn.m || *s >= nn.m { return None; }
         let rp = self.lift_x(r, odd)?;
@@ -202,6 +212,11 @@ impl Curve {
     }
     /// RFC 6979 (HMAC-SHA256) ECDSA; returns (r, s, y_parity, s_was_high) after the low-s rule
     pub fn sign_rfc6979(&self, d: &U256, digest: &[u8; 32]) -> (U256, U256, bool, bool) {
+        let o = self.sign_rfc6979_raw(d, digest);
+        crate::trace::rec("sign_rfc6979", 500, || (format!("[\"{}\",{}]", d.to_hex64(), crate::trace::h(digest)), format!("[\"{}\",\"{}\",{}]", o.0.to_hex64(), o.1.to_hex64(), o.2)));
+        o
+    }
+    fn sign_rfc6979_raw(&self, d: &U256, digest: &[u8; 32]) -> (U256, U256, bool, bool) {
         let nn = &self.fnn;
         let z = nn.reduce(&U256::from_be(digest));
         let x = d.to_be(); let h1 = z.to_be(); // bits2octets(h1) = int(h1) mod q
